@@ -43,8 +43,8 @@ NODE_MENUS = (
     ("HNodeInst", "HNode"),
     ("HNodeUnhash",),
     ("HNodeUnhash", "HNode"),
-    ("HMixProxy",),
-    ("HMixProxy", "HMix", "HSym"),
+    ("HMixWords",),
+    ("HNodeWords", "HNode", "HSym"),
     ("HNodeWords",),
     ("HMixWords", "HNode"),
 )
